@@ -47,7 +47,6 @@ from ampform.helicity.naming import (
     HelicityAmplitudeNameGenerator,
     NameGenerator,
     collect_spin_projections,
-    create_amplitude_base,
     create_amplitude_symbol,
     generate_transition_label,
     get_helicity_angle_symbols,
@@ -463,28 +462,25 @@ class HelicityAmplitudeBuilder:
 
         amplitude = self.config.spin_alignment.formulate_amplitude(self.reaction)
         spin_projections = collect_spin_projections(self.reaction)
-        self.__register_vanishing_amplitudes(spin_projections)
         # sorted, because the iteration order of a set depends on PYTHONHASHSEED
         sorted_spin_projections = [
             (symbol, sorted(values)) for symbol, values in spin_projections.items()
         ]
-        return PoolSum(sp.Abs(amplitude) ** 2, *sorted_spin_projections)
+        intensity = PoolSum(sp.Abs(amplitude) ** 2, *sorted_spin_projections)
+        self.__register_vanishing_amplitudes(intensity)
+        return intensity
 
-    def __register_vanishing_amplitudes(
-        self, spin_projections: dict[sp.Symbol, set[sp.Rational]]
-    ) -> None:
+    def __register_vanishing_amplitudes(self, intensity: PoolSum) -> None:
         """Define amplitudes for which there are no transitions as zero.
 
         The intensity sums over all combinations of the spin projections of the outer
-        states, but not each combination has to appear in the reaction (for example,
+        states (and spin alignment sums over all projections :math:`-s, \\dots, s`), but
+        not each combination has to appear in the reaction (for example,
         :math:`\\eta_c \\to \\Lambda\\bar\\Lambda` only has equal helicities).
         """
-        for topology in group_by_topology(self.reaction.transitions):
-            base = create_amplitude_base(topology)
-            for helicities in itertools.product(*spin_projections.values()):
-                symbol = base[helicities]
-                if symbol not in self.__ingredients.amplitudes:
-                    self.__ingredients.amplitudes[symbol] = sp.S.Zero
+        for symbol in sorted(_collect_summed_amplitudes(intensity), key=str):
+            if symbol not in self.__ingredients.amplitudes:
+                self.__ingredients.amplitudes[symbol] = sp.S.Zero
 
     def __register_amplitudes(self, transition_group: list[StateTransition]) -> None:
         transition_by_topology = group_by_topology(transition_group)
@@ -610,6 +606,30 @@ class HelicityAmplitudeBuilder:
         if prefactor != 1.0:
             return sp.Rational(prefactor)
         return None
+
+
+def _collect_summed_amplitudes(
+    expression: sp.Basic, index_values: dict[sp.Symbol, tuple] | None = None
+) -> set[sp.Indexed]:
+    """Collect the amplitude symbols that an expression with (nested) sums runs over."""
+    if index_values is None:
+        index_values = {}
+    if isinstance(expression, PoolSum):
+        index_values = {**index_values, **{s: tuple(v) for s, v in expression.indices}}
+        return _collect_summed_amplitudes(expression.expression, index_values)
+    if isinstance(expression, sp.Indexed):
+        symbols = sorted(
+            {s for i in expression.indices for s in i.free_symbols if s in index_values},
+            key=str,
+        )
+        return {
+            expression.xreplace(dict(zip(symbols, values)))  # type: ignore[misc]
+            for values in itertools.product(*(index_values[s] for s in symbols))
+        }
+    amplitude_symbols: set[sp.Indexed] = set()
+    for arg in expression.args:
+        amplitude_symbols |= _collect_summed_amplitudes(arg, index_values)
+    return amplitude_symbols
 
 
 def _perform_combinatorics(
